@@ -253,6 +253,15 @@ def run(chk):
             chk.traces_validated += 1
             if bad:
                 chk.violation(f'{kind}:{bad}', {'property': 'C08', 'behaviour': beh, 'kind': kind, 'precision': 'float64', 'seed': chk.seed + bi, 'clause': bad}, f'{kind} ns={beh["ns"]} base={beh["base"]} step={beh["step"]}: {bad}')
+        # more convergence points than any pre-allocated table of them would hold (step 1 over 34..40 traces)
+        many = [b for b in c02.generate(chk, 40, 2, 1, 1, 'single runs with 34..40 convergence points') if b['step'] == 1 and b['ns'][0] >= 34 and len(b['cols']) >= 34]
+        for bi, beh in enumerate(many[:: max(1, len(many) // (3 if q else 10))]):
+            kind = ('CPA', 'SNR', 'DPA')[bi % 3]
+            bad, info = run_one(chk, beh, kind, 'float64', chk.seed + 7000 + bi)
+            chk.count((kind, json.dumps(beh, sort_keys=True), 'float64', 'many-points'), nontrivial=True)
+            chk.traces_validated += 1
+            if bad:
+                chk.violation(f'{kind}:{bad}', dict(info, property='C08', behaviour=beh, kind=kind, precision='float64', seed=chk.seed + 7000 + bi, clause=bad), f'{kind} ns={beh["ns"]} base={beh["base"]} step={beh["step"]}: {bad}')
         template_convergence(chk, rng, 8 if q else 40)
         from .. import apirules
         apirules.run(chk, 'convergence_step', 'C08')
